@@ -490,6 +490,59 @@ def s_paired(S):
             S.case(all(np.allclose(ga[a, b], gb[a, b], rtol=1e-5, atol=1e-6) for a in 'AB' for b in 'AB'), 'sweep step %s=%s equals a fresh System' % (what, val))
 
 
+# --------------------------------------------------------------------------- C15: numeric values of other Python types
+
+@standin('density-diameter-histories-with-numpy-valued-assignments', props=['C15'])
+def s_valuekinds(S):
+    """The contracts quantify over real numbers; what the *kind* of number object does (a 0-d array is mutable, a numpy
+    scalar or an int is not) is outside the value model of the executor.  Bounded: random assignment histories with
+    every kind, compared with float references after every step."""
+    import itertools
+    import pyPRISM
+    _quiet()
+    rng = np.random.RandomState(S.seed)
+    kinds = {'float': float, 'np.float64': np.float64, '0-d array': lambda v: np.array(v), 'int': lambda v: int(round(3 * v)) + 1,
+             'np.asarray': lambda v: np.asarray(v, dtype=float)}
+    n_hist = 120 if S.tier == 'quick' else 1500
+    S.bounds = '%d random assignment histories (1-4 types, 1-8 steps incl. re-assignment and list keys) x value kinds %s; all derived quantities compared after every step, rtol 1e-12' % (n_hist, sorted(kinds))
+    for h in range(n_hist):
+        n = int(rng.randint(1, 5))
+        types = ['C', 'A', 'D', 'B'][:n]
+        kind = sorted(kinds)[h % len(kinds)]
+        rho, dia = pyPRISM.Density(list(types)), pyPRISM.Diameter(list(types))
+        ref_r, ref_d, held = {}, {}, []
+        ok, where = True, ''
+        for step in range(int(rng.randint(1, 9))):
+            key = types[int(rng.randint(n))] if rng.rand() < 0.8 else [t for t in types if rng.rand() < 0.6]
+            vr, vd = float(rng.uniform(0.05, 1.0)), float(rng.uniform(0.5, 2.0))
+            obj_r, obj_d = kinds[kind](vr), kinds[kind](vd)
+            fr, fd = float(obj_r), float(obj_d)
+            held.append((obj_r, fr))
+            held.append((obj_d, fd))
+            rho[key] = obj_r
+            dia[key] = obj_d
+            for t in ([key] if isinstance(key, str) else key):
+                ref_r[t], ref_d[t] = fr, fd
+            chk = []
+            for t in types:
+                if t in ref_r:
+                    chk.append(('rho[%s]' % t, float(rho[t]), ref_r[t]))
+                    chk.append(('d[%s]' % t, float(dia[t]), ref_d[t]))
+                    chk.append(('volume[%s]' % t, float(dia.volume[t]), np.pi * ref_d[t] ** 3 / 6))
+            chk.append(('total', float(rho.total), sum(ref_r.values())))
+            for a, b in itertools.product(ref_r, repeat=2):
+                chk.append(('pair[%s,%s]' % (a, b), float(rho.pair[a, b][0]), ref_r[a] * ref_r[b]))
+                chk.append(('site[%s,%s]' % (a, b), float(rho.site[a, b][0]), ref_r[a] if a == b else ref_r[a] + ref_r[b]))
+                chk.append(('sigma[%s,%s]' % (a, b), float(dia.sigma[a, b]), (ref_d[a] + ref_d[b]) / 2))
+            for o, v0 in held:
+                chk.append(("the caller's own value object", float(o), v0))
+            bad = [c for c in chk if not abs(c[1] - c[2]) <= 1e-12 * max(1.0, abs(c[2]))]
+            if bad:
+                ok, where = False, '%s = %r, expected %r after step %d (key %r)' % (bad[0][0], bad[0][1], bad[0][2], step, key)
+                break
+        S.case(ok, 'Density/Diameter derived quantities with %s values' % kind, None if ok else {'types': types, 'first': where})
+
+
 # --------------------------------------------------------------------------- contracts monitored on the repository's test-suite
 
 @standin('contracts-monitored-on-the-repository-test-suite',
